@@ -6,6 +6,71 @@ import RelicVerif.Lemmas.BnLowAdd
 
 namespace Relic.Model
 
+namespace LowMul
+
+theorem add_mod_cases (B u v : Nat) (hu : u < B) (hv : v < B) :
+    ((u + v) % B = u + v ∧ u + v < B) ∨ ((u + v) % B + B = u + v ∧ B ≤ u + v) := by
+  by_cases h : u + v < B
+  · exact Or.inl ⟨Nat.mod_eq_of_lt h, h⟩
+  · right
+    rw [Nat.mod_eq_sub_mod (by omega), Nat.mod_eq_of_lt (by omega)]
+    omega
+
+/-- one digit addition with the C overflow test `sum < right operand` -/
+theorem add_carry_r (B u v : Nat) (hu : u < B) (hv : v < B) :
+    ∃ s k, (u + v) % B = s ∧ (if s < v then 1 else 0) = k ∧ s < B ∧ k ≤ 1 ∧ u + v = s + k * B := by
+  rcases add_mod_cases B u v hu hv with ⟨e, h⟩ | ⟨e, h⟩
+  · exact ⟨u + v, 0, e, if_neg (by omega), h, by omega, by omega⟩
+  · exact ⟨(u + v) % B, 1, rfl, if_pos (by omega), by omega, by omega, by omega⟩
+
+/-- one digit addition with the C overflow test `sum < left operand` -/
+theorem add_carry_l (B u v : Nat) (hu : u < B) (hv : v < B) :
+    ∃ s k, (u + v) % B = s ∧ (if s < u then 1 else 0) = k ∧ s < B ∧ k ≤ 1 ∧ u + v = s + k * B := by
+  rcases add_mod_cases B u v hu hv with ⟨e, h⟩ | ⟨e, h⟩
+  · exact ⟨u + v, 0, e, if_neg (by omega), h, by omega, by omega⟩
+  · exact ⟨(u + v) % B, 1, rfl, if_pos (by omega), by omega, by omega, by omega⟩
+
+theorem mul_div_lt (B x y : Nat) (hB : 1 < B) (hx : x < B) (hy : y < B) : x * y / B + 2 ≤ B := by
+  have h1 : x * y ≤ (B - 1) * (B - 1) := Nat.mul_le_mul (by omega) (by omega)
+  have h2 : (B - 1) * (B - 1) < (B - 1) * B := Nat.mul_lt_mul_of_pos_left (by omega) (by omega)
+  have : x * y / B < B - 1 := (Nat.div_lt_iff_lt_mul (by omega)).2 (by omega)
+  omega
+
+theorem mul_le_sq (B x y : Nat) (hx : x < B) (hy : y < B) : x * y + 2 * B ≤ B * B + 1 := by
+  have h1 : x * y ≤ (B - 1) * (B - 1) := Nat.mul_le_mul (by omega) (by omega)
+  obtain ⟨k, rfl⟩ : ∃ k, B = k + 1 := ⟨B - 1, by omega⟩
+  simp only [Nat.add_sub_cancel] at h1
+  grind
+
+/-- split a product into (hi, lo) digits -/
+theorem mul_split (B x y : Nat) (hB : 1 < B) (hx : x < B) (hy : y < B) :
+    ∃ p1 p0, x * y / B = p1 ∧ x * y % B = p0 ∧ p0 < B ∧ p1 + 2 ≤ B ∧ x * y = p1 * B + p0 := by
+  refine ⟨_, _, rfl, rfl, Nat.mod_lt _ (by omega), mul_div_lt B x y hB hx hy, ?_⟩
+  have := Nat.div_add_mod (x * y) B
+  rw [Nat.mul_comm] at this
+  exact this.symm
+
+theorem mul1Low_step (B : Nat) (hB : 1 < B) (a digit carry : Nat) (as : List Nat)
+    (ha : a < B) (hd : digit < B) (hc : carry < B) :
+    ∃ c carry', c < B ∧ carry' < B ∧ c + carry' * B = a * digit + carry ∧
+      mul1Low B (a :: as) digit carry
+        = (c :: (mul1Low B as digit carry').1, (mul1Low B as digit carry').2) := by
+  obtain ⟨p1, p0, e1, e0, h0, h1, hp⟩ := mul_split B a digit hB ha hd
+  obtain ⟨s, k, es, ek, hs, hk, hsum⟩ := add_carry_r B p0 carry h0 hc
+  refine ⟨s, p1 + k, hs, by omega, by grind, ?_⟩
+  simp only [mul1Low, e1, e0, es, ek]
+  rw [Nat.mod_eq_of_lt (show p1 + k < B by omega)]
+
+/-- generic tail step for carry chains: value of `d :: ds` with carry-out at one more digit -/
+theorem chain_step (B : Nat) (d vs cout n total : Nat)
+    (ih : vs + cout * B ^ n = total)  :
+    d + B * vs + cout * B ^ (n + 1) = d + B * total := by
+  subst ih; rw [Nat.pow_succ]; grind
+
+end LowMul
+
+open LowMul
+
 /-- bn_mul1_low: a * digit + carry-in -/
 theorem mul1Low_spec (B : Nat) (hB : 1 < B) :
     ∀ (a : List Nat) (digit carry : Nat), digit < B → carry < B → (∀ d ∈ a, d < B) →
@@ -13,7 +78,48 @@ theorem mul1Low_spec (B : Nat) (hB : 1 < B) :
         = val B a * digit + carry
       ∧ (mul1Low B a digit carry).2 < B
       ∧ (∀ d ∈ (mul1Low B a digit carry).1, d < B) ∧ (mul1Low B a digit carry).1.length = a.length := by
-  sorry
+  intro a
+  induction a with
+  | nil => intro digit carry _ hc _; simp [mul1Low, val, hc]
+  | cons x xs ih =>
+    intro digit carry hd hc ha
+    have hx : x < B := ha x (by simp)
+    have ha' : ∀ d ∈ xs, d < B := fun d hd => ha d (by simp [hd])
+    obtain ⟨c, carry', hc1, hc2, hsum, heq⟩ := mul1Low_step B hB x digit carry xs hx hd hc
+    obtain ⟨ih1, ih2, ih3, ih4⟩ := ih digit carry' hd hc2 ha'
+    rw [heq]
+    refine ⟨?_, ih2, ?_, by simp [ih4]⟩
+    · simp only [val, List.length_cons]
+      rw [chain_step B c _ _ _ _ ih1]
+      grind
+    · intro d hd
+      simp at hd
+      rcases hd with rfl | hd
+      · exact hc1
+      · exact ih3 d hd
+
+namespace LowMul
+
+theorem mulaLow_step (B : Nat) (hB : 1 < B) (c a digit carry : Nat) (cs as : List Nat)
+    (hc0 : c < B) (ha : a < B) (hd : digit < B) (hc : carry < B) :
+    ∃ c' carry', c' < B ∧ carry' < B ∧ c' + carry' * B = c + a * digit + carry ∧
+      mulaLow B (c :: cs) (a :: as) digit carry
+        = (c' :: (mulaLow B cs as digit carry').1, (mulaLow B cs as digit carry').2) := by
+  obtain ⟨p1, p0, e1, e0, h0, h1, hp⟩ := mul_split B a digit hB ha hd
+  have hsq := mul_le_sq B a digit ha hd
+  obtain ⟨s, k, es, ek, hs, hk, hsum⟩ := add_carry_r B p0 carry h0 hc
+  obtain ⟨s', k', es', ek', hs', hk', hsum'⟩ := add_carry_r B c s hc0 hs
+  have htot : s' + (p1 + k + k') * B = c + a * digit + carry := by grind
+  have hT : p1 + k + k' < B := by
+    apply Nat.lt_of_not_le
+    intro hge
+    have : B * B ≤ (p1 + k + k') * B := Nat.mul_le_mul_right B hge
+    omega
+  refine ⟨s', p1 + k + k', hs', hT, htot, ?_⟩
+  simp only [mulaLow, e1, e0, es, ek, es', ek']
+  rw [Nat.mod_eq_of_lt (show p1 + k < B by omega), Nat.mod_eq_of_lt hT]
+
+end LowMul
 
 /-- bn_mula_low: c + a * digit + carry-in -/
 theorem mulaLow_spec (B : Nat) (hB : 1 < B) :
@@ -23,7 +129,37 @@ theorem mulaLow_spec (B : Nat) (hB : 1 < B) :
         = val B c + val B a * digit + carry
       ∧ (mulaLow B c a digit carry).2 < B
       ∧ (∀ d ∈ (mulaLow B c a digit carry).1, d < B) ∧ (mulaLow B c a digit carry).1.length = a.length := by
-  sorry
+  intro c
+  induction c with
+  | nil =>
+    intro a digit carry hl _ hc _ _
+    cases a with
+    | nil => simp [mulaLow, val, hc]
+    | cons _ _ => simp at hl
+  | cons y ys ih =>
+    intro a digit carry hl hd hc hcs ha
+    cases a with
+    | nil => simp at hl
+    | cons x xs =>
+      simp only [List.length_cons, Nat.add_right_cancel_iff] at hl
+      have hx : x < B := ha x (by simp)
+      have hy : y < B := hcs y (by simp)
+      have ha' : ∀ d ∈ xs, d < B := fun d hd => ha d (by simp [hd])
+      have hc' : ∀ d ∈ ys, d < B := fun d hd => hcs d (by simp [hd])
+      obtain ⟨c', carry', hc1, hc2, hsum, heq⟩ := mulaLow_step B hB y x digit carry ys xs hy hx hd hc
+      obtain ⟨ih1, ih2, ih3, ih4⟩ := ih xs digit carry' hl hd hc2 hc' ha'
+      rw [heq]
+      refine ⟨?_, ih2, ?_, by simp [ih4]⟩
+      · simp only [val, List.length_cons]
+        rw [chain_step B c' _ _ _ _ ih1]
+        grind
+      · intro d hd
+        simp at hd
+        rcases hd with rfl | hd
+        · exact hc1
+        · exact ih3 d hd
+
+
 
 /-- value of the Comba triple register -/
 def regVal (B : Nat) (r : Nat × Nat × Nat) : Nat := r.2.2 + B * r.2.1 + B * B * r.1
@@ -34,7 +170,33 @@ theorem combaStepMul_spec (B : Nat) (hB : 1 < B) (r : Nat × Nat × Nat) (x y : 
     (hfit : regVal B r + x * y < B * B * B) :
     regVal B (combaStepMul B r x y) = regVal B r + x * y
     ∧ (combaStepMul B r x y).1 < B ∧ (combaStepMul B r x y).2.1 < B ∧ (combaStepMul B r x y).2.2 < B := by
-  sorry
+  obtain ⟨r2, r1, r0⟩ := r
+  simp only [regVal] at *
+  obtain ⟨p1, p0, e1, e0, h0, h1, hp⟩ := mul_split B x y hB hx hy
+  obtain ⟨s0, k0, es0, ek0, hs0, hk0, hsum0⟩ := add_carry_r B r0 p0 hr0 h0
+  obtain ⟨s1, k1, es1, ek1, hs1, hk1, hsum1⟩ := add_carry_l B r1 k0 hr1 (by omega)
+  obtain ⟨s2, k2, es2, ek2, hs2, hk2, hsum2⟩ := add_carry_r B s1 p1 hs1 (by omega)
+  have htot : s0 + B * s2 + B * B * (r2 + k1 + k2) = r0 + B * r1 + B * B * r2 + x * y := by grind
+  have hT : r2 + k1 + k2 < B := by
+    have : B * B * (r2 + k1 + k2) < B * B * B := by omega
+    exact Nat.lt_of_mul_lt_mul_left this
+  simp only [combaStepMul, e1, e0, es0, ek0, es1, ek1, es2, ek2]
+  rw [Nat.mod_eq_of_lt (show r2 + k1 < B by omega), Nat.mod_eq_of_lt hT]
+  exact ⟨htot, hT, hs2, hs0⟩
+
+namespace LowMul
+
+/-- doubling a two-digit product: the high half with the C overflow test `s1 < p1` -/
+theorem add_carry_dbl (B p1 k : Nat) (h1 : p1 + 2 ≤ B) (hk : k ≤ 1) :
+    ∃ s k', (p1 + p1 + k) % B = s ∧ (if s < p1 then 1 else 0) = k' ∧ s < B ∧ k' ≤ 1
+      ∧ p1 + p1 + k = s + k' * B := by
+  by_cases h : p1 + p1 + k < B
+  · exact ⟨p1 + p1 + k, 0, Nat.mod_eq_of_lt h, if_neg (by omega), h, by omega, by omega⟩
+  · have e : (p1 + p1 + k) % B = p1 + p1 + k - B := by
+      rw [Nat.mod_eq_sub_mod (by omega), Nat.mod_eq_of_lt (by omega)]
+    exact ⟨p1 + p1 + k - B, 1, e, if_pos (by omega), by omega, by omega, by omega⟩
+
+end LowMul
 
 /-- RLC_COMBA_STEP_SQR accumulates 2*x*y -/
 theorem combaStepSqr_spec (B : Nat) (hB : 1 < B) (r : Nat × Nat × Nat) (x y : Nat)
@@ -42,7 +204,376 @@ theorem combaStepSqr_spec (B : Nat) (hB : 1 < B) (r : Nat × Nat × Nat) (x y : 
     (hfit : regVal B r + 2 * (x * y) < B * B * B) :
     regVal B (combaStepSqr B r x y) = regVal B r + 2 * (x * y)
     ∧ (combaStepSqr B r x y).1 < B ∧ (combaStepSqr B r x y).2.1 < B ∧ (combaStepSqr B r x y).2.2 < B := by
-  sorry
+  obtain ⟨r2, r1, r0⟩ := r
+  simp only [regVal] at *
+  obtain ⟨p1, p0, e1, e0, h0, h1, hp⟩ := mul_split B x y hB hx hy
+  obtain ⟨d0, c0, ed0, ec0, hd0, hc0, hdsum0⟩ := add_carry_r B p0 p0 h0 h0
+  obtain ⟨d1, c1, ed1, ec1, hd1, hc1, hdsum1⟩ := add_carry_dbl B p1 c0 h1 hc0
+  obtain ⟨s0, k0, es0, ek0, hs0, hk0, hsum0⟩ := add_carry_r B r0 d0 hr0 hd0
+  obtain ⟨s1, k1, es1, ek1, hs1, hk1, hsum1⟩ := add_carry_l B r1 k0 hr1 (by omega)
+  obtain ⟨s2, k2, es2, ek2, hs2, hk2, hsum2⟩ := add_carry_r B s1 d1 hs1 hd1
+  have htot : s0 + B * s2 + B * B * (r2 + k1 + k2 + c1)
+      = r0 + B * r1 + B * B * r2 + 2 * (x * y) := by grind
+  have hT : r2 + k1 + k2 + c1 < B := by
+    have : B * B * (r2 + k1 + k2 + c1) < B * B * B := by omega
+    exact Nat.lt_of_mul_lt_mul_left this
+  simp only [combaStepSqr, e1, e0, ed0, ec0, ed1, ec1, es0, ek0, es1, ek1, es2, ek2]
+  rw [Nat.mod_eq_of_lt (show r2 + k1 < B by omega), Nat.mod_eq_of_lt (show r2 + k1 + k2 < B by omega),
+    Nat.mod_eq_of_lt hT]
+  exact ⟨htot, hT, hs2, hs0⟩
+
+
+
+/-! ### generic column fold -/
+
+namespace LowMul
+
+/-- emit the low register digit and shift the register down by one digit -/
+def colStep {γ : Type} (proc : γ → Nat × Nat × Nat → Nat × Nat × Nat)
+    (st : List Nat × (Nat × Nat × Nat)) (c : γ) : List Nat × (Nat × Nat × Nat) :=
+  ((proc c st.2).2.2 :: st.1, (0, (proc c st.2).1, (proc c st.2).2.1))
+
+theorem fold_arith (P B d r1 r2 R vc V X : Nat) (h : d + B * r1 + B * B * r2 = R + vc) :
+    X + P * (d + B * 0) + P * B * (r1 + B * r2 + B * B * 0 + V) = X + P * (R + (vc + B * V)) := by
+  grind
+
+theorem colFold_spec (B : Nat) {γ : Type} (proc : γ → Nat × Nat × Nat → Nat × Nat × Nat)
+    (v : γ → Nat) (cols : List γ)
+    (hproc : ∀ c ∈ cols, ∀ r : Nat × Nat × Nat, r.1 = 0 → r.2.1 < B → r.2.2 < B →
+      regVal B (proc c r) = regVal B r + v c
+      ∧ (proc c r).1 < B ∧ (proc c r).2.1 < B ∧ (proc c r).2.2 < B) :
+    ∀ st : List Nat × (Nat × Nat × Nat), st.2.1 = 0 → st.2.2.1 < B → st.2.2.2 < B →
+      (∀ d ∈ st.1, d < B) →
+      val B (cols.foldl (colStep proc) st).1.reverse
+          + B ^ (cols.foldl (colStep proc) st).1.length * regVal B (cols.foldl (colStep proc) st).2
+        = val B st.1.reverse + B ^ st.1.length * (regVal B st.2 + val B (cols.map v))
+      ∧ (cols.foldl (colStep proc) st).1.length = st.1.length + cols.length
+      ∧ (∀ d ∈ (cols.foldl (colStep proc) st).1, d < B)
+      ∧ (cols.foldl (colStep proc) st).2.1 = 0 := by
+  induction cols with
+  | nil =>
+    intro st h1 _ _ hd
+    simp only [List.foldl_nil, List.map_nil, val, Nat.add_zero, List.length_nil]
+    exact ⟨trivial, trivial, hd, h1⟩
+  | cons c cs ih =>
+    intro st h1 h2 h3 hd
+    obtain ⟨p1, p2, p3, p4⟩ := hproc c (by simp) st.2 h1 h2 h3
+    have ih' := ih (fun c' hc' => hproc c' (by simp [hc'])) (colStep proc st c) rfl p2 p3
+      (by
+        intro d hd'
+        simp only [colStep, List.mem_cons] at hd'
+        rcases hd' with rfl | hd'
+        · exact p4
+        · exact hd d hd')
+    obtain ⟨q1, q2, q3, q4⟩ := ih'
+    simp only [List.foldl_cons]
+    refine ⟨?_, ?_, q3, q4⟩
+    · rw [q1]
+      simp only [colStep, List.reverse_cons, val_append, List.length_reverse, List.length_cons,
+        List.map_cons, val, regVal, Nat.pow_succ] at p1 ⊢
+      exact fold_arith _ _ _ _ _ _ _ _ _ p1
+    · rw [q2]; simp [colStep]; omega
+
+
+
+end LowMul
+
+/-! ### column processors -/
+
+namespace LowMul
+
+def colVal (a b : List Nat) : List (Nat × Nat) → Nat
+  | [] => 0
+  | ij :: ps => a.getD ij.1 0 * b.getD ij.2 0 + colVal a b ps
+
+def mulProc (B : Nat) (a b : List Nat) (pairs : List (Nat × Nat)) (r : Nat × Nat × Nat) :
+    Nat × Nat × Nat :=
+  pairs.foldl (fun acc ij => combaStepMul B acc (a.getD ij.1 0) (b.getD ij.2 0)) r
+
+theorem getD_lt (B : Nat) (hB : 0 < B) (a : List Nat) (h : ∀ d ∈ a, d < B) (i : Nat) :
+    a.getD i 0 < B := by
+  by_cases hi : i < a.length
+  · rw [List.getD_eq_getElem?_getD, List.getElem?_eq_getElem hi]; exact h _ (List.getElem_mem _)
+  · rw [List.getD_eq_getElem?_getD, List.getElem?_eq_none (by omega)]; exact hB
+
+theorem getD_ge (a : List Nat) (i : Nat) (hi : a.length ≤ i) : a.getD i 0 = 0 := by
+  rw [List.getD_eq_getElem?_getD, List.getElem?_eq_none hi]; rfl
+
+theorem mulProc_fold (B : Nat) (hB : 1 < B) (a b : List Nat)
+    (hda : ∀ d ∈ a, d < B) (hdb : ∀ d ∈ b, d < B) :
+    ∀ (pairs : List (Nat × Nat)) (acc : Nat × Nat × Nat),
+      acc.1 < B → acc.2.1 < B → acc.2.2 < B →
+      regVal B acc + pairs.length * (B * B) ≤ B * B * B →
+      regVal B (mulProc B a b pairs acc) = regVal B acc + colVal a b pairs
+      ∧ (mulProc B a b pairs acc).1 < B ∧ (mulProc B a b pairs acc).2.1 < B
+      ∧ (mulProc B a b pairs acc).2.2 < B := by
+  intro pairs
+  induction pairs with
+  | nil => intro acc h1 h2 h3 _; exact ⟨rfl, h1, h2, h3⟩
+  | cons ij ps ih =>
+    intro acc h1 h2 h3 hfit
+    have hx := getD_lt B (by omega) a hda ij.1
+    have hy := getD_lt B (by omega) b hdb ij.2
+    have hxy : a.getD ij.1 0 * b.getD ij.2 0 < B * B := Nat.mul_lt_mul'' hx hy
+    simp only [List.length_cons, Nat.succ_mul] at hfit
+    obtain ⟨e, g1, g2, g3⟩ := combaStepMul_spec B hB acc _ _ h1 h2 h3 hx hy (by omega)
+    obtain ⟨e', g1', g2', g3'⟩ := ih (combaStepMul B acc (a.getD ij.1 0) (b.getD ij.2 0)) g1 g2 g3
+      (by omega)
+    refine ⟨?_, g1', g2', g3'⟩
+    show regVal B (mulProc B a b ps _) = _
+    rw [e', e, colVal]; omega
+
+theorem reg_small (B : Nat) (r : Nat × Nat × Nat) (n : Nat) (h0 : r.1 = 0) (h1 : r.2.1 < B)
+    (h2 : r.2.2 < B) (hn : n < B) : regVal B r + n * (B * B) ≤ B * B * B := by
+  have e1 : B * r.2.1 + B ≤ B * B := by
+    have := Nat.mul_le_mul_left B (show r.2.1 + 1 ≤ B from h1)
+    rwa [Nat.mul_succ] at this
+  have e2 : n * (B * B) + B * B ≤ B * B * B := by
+    have := Nat.mul_le_mul_right (B * B) (show n + 1 ≤ B from hn)
+    rwa [Nat.succ_mul, ← Nat.mul_assoc B B B] at this
+  simp only [regVal, h0, Nat.mul_zero, Nat.add_zero]
+  omega
+
+theorem mulProc_spec (B : Nat) (hB : 1 < B) (a b : List Nat)
+    (hda : ∀ d ∈ a, d < B) (hdb : ∀ d ∈ b, d < B) (pairs : List (Nat × Nat))
+    (hlen : pairs.length < B) (r : Nat × Nat × Nat) (h0 : r.1 = 0) (h1 : r.2.1 < B)
+    (h2 : r.2.2 < B) :
+    regVal B (mulProc B a b pairs r) = regVal B r + colVal a b pairs
+    ∧ (mulProc B a b pairs r).1 < B ∧ (mulProc B a b pairs r).2.1 < B
+    ∧ (mulProc B a b pairs r).2.2 < B :=
+  mulProc_fold B hB a b hda hdb pairs r (by omega) h1 h2 (reg_small B r _ h0 h1 h2 hlen)
+
+theorem mulnLow_eq (B : Nat) (a b : List Nat) (size : Nat) :
+    mulnLow B a b size =
+      ((((List.range size).map fun i => (List.range (i + 1)).map fun j => (j, i - j)) ++
+        ((List.range size).map fun i =>
+          (List.range (size - (i + 1))).map fun j => (i + 1 + j, size - 1 - j))).foldl
+        (colStep (mulProc B a b)) ([], (0, 0, 0))).1.reverse := rfl
+
+
+end LowMul
+
+/-! ### finite sums over an initial segment of ℕ -/
+
+namespace LowMul
+
+def sumTo (f : Nat → Nat) : Nat → Nat
+  | 0 => 0
+  | n + 1 => sumTo f n + f n
+
+theorem sumTo_congr {f g : Nat → Nat} : ∀ n, (∀ i, i < n → f i = g i) → sumTo f n = sumTo g n
+  | 0, _ => rfl
+  | n + 1, h => by
+    simp only [sumTo]
+    rw [sumTo_congr n (fun i hi => h i (by omega)), h n (by omega)]
+
+theorem sumTo_zero {f : Nat → Nat} : ∀ n, (∀ i, i < n → f i = 0) → sumTo f n = 0
+  | 0, _ => rfl
+  | n + 1, h => by
+    simp only [sumTo]
+    rw [sumTo_zero n (fun i hi => h i (by omega)), h n (by omega)]
+
+theorem sumTo_add (f : Nat → Nat) (m : Nat) :
+    ∀ n, sumTo f (m + n) = sumTo f m + sumTo (fun i => f (m + i)) n
+  | 0 => rfl
+  | n + 1 => by
+    show sumTo f (m + n) + f (m + n) = _
+    rw [sumTo_add f m n]; simp only [sumTo]; omega
+
+theorem sumTo_succ_front (f : Nat → Nat) :
+    ∀ n, sumTo f (n + 1) = f 0 + sumTo (fun i => f (i + 1)) n
+  | 0 => by simp [sumTo]
+  | n + 1 => by
+    show sumTo f (n + 1) + f (n + 1) = _
+    rw [sumTo_succ_front f n]; simp only [sumTo]; omega
+
+theorem colVal_append (a b : List Nat) (p q : List (Nat × Nat)) :
+    colVal a b (p ++ q) = colVal a b p + colVal a b q := by
+  induction p with
+  | nil => simp [colVal]
+  | cons x xs ih => simp only [List.cons_append, colVal, ih]; omega
+
+theorem colVal_map_range (a b : List Nat) (g : Nat → Nat × Nat) :
+    ∀ n, colVal a b ((List.range n).map g) = sumTo (fun j => a.getD (g j).1 0 * b.getD (g j).2 0) n
+  | 0 => rfl
+  | n + 1 => by
+    rw [List.range_succ, List.map_append, colVal_append, colVal_map_range a b g n]
+    simp [colVal, sumTo]
+
+/-- the k-th coefficient of the product of the digit polynomials -/
+def colSum (a b : List Nat) (k : Nat) : Nat :=
+  sumTo (fun i => a.getD i 0 * b.getD (k - i) 0) (k + 1)
+
+theorem colSum_nil (b : List Nat) (k : Nat) : colSum [] b k = 0 :=
+  sumTo_zero _ (fun i _ => by simp)
+
+theorem colSum_cons_zero (x : Nat) (xs b : List Nat) : colSum (x :: xs) b 0 = x * b.getD 0 0 := by
+  simp [colSum, sumTo]
+
+theorem colSum_cons_succ (x : Nat) (xs b : List Nat) (k : Nat) :
+    colSum (x :: xs) b (k + 1) = x * b.getD (k + 1) 0 + colSum xs b k := by
+  unfold colSum
+  rw [sumTo_succ_front]
+  simp only [List.getD_cons_zero, Nat.sub_zero, List.getD_cons_succ, Nat.add_sub_add_right]
+
+end LowMul
+
+/-! ### digit lists built from functions -/
+
+namespace LowMul
+
+theorem val_map_range_succ (B : Nat) (F : Nat → Nat) (m : Nat) :
+    val B ((List.range (m + 1)).map F)
+      = F 0 + B * val B ((List.range m).map (fun k => F (k + 1))) := by
+  rw [List.range_succ_eq_map, List.map_cons, List.map_map, val]
+  rfl
+
+theorem val_map_zero (B : Nat) (l : List Nat) : val B (l.map (fun _ => 0)) = 0 := by
+  induction l with
+  | nil => rfl
+  | cons x xs ih => simp [val, ih]
+
+theorem val_map_add (B : Nat) (F G : Nat → Nat) (l : List Nat) :
+    val B (l.map (fun k => F k + G k)) = val B (l.map F) + val B (l.map G) := by
+  induction l with
+  | nil => rfl
+  | cons x xs ih => simp only [List.map_cons, val, ih]; grind
+
+theorem val_map_mul (B c : Nat) (F : Nat → Nat) (l : List Nat) :
+    val B (l.map (fun k => c * F k)) = c * val B (l.map F) := by
+  induction l with
+  | nil => rfl
+  | cons x xs ih => simp only [List.map_cons, val, ih]; grind
+
+theorem val_getD_range (B : Nat) : ∀ (b : List Nat) (m : Nat), b.length ≤ m →
+    val B ((List.range m).map (fun k => b.getD k 0)) = val B b
+  | [], m, _ => by simp [val_map_zero, val]
+  | y :: ys, 0, h => by simp at h
+  | y :: ys, m + 1, h => by
+    rw [val_map_range_succ]
+    simp only [List.getD_cons_zero, List.getD_cons_succ, val]
+    rw [val_getD_range B ys m (by simpa using h)]
+
+/-- Σ_k colSum a b k * B^k = val a * val b, as soon as all columns are included -/
+theorem val_colSum (B : Nat) (b : List Nat) : ∀ (a : List Nat) (m : Nat), a.length + b.length ≤ m →
+    val B ((List.range m).map (colSum a b)) = val B a * val B b
+  | [], m, _ => by
+    have : colSum [] b = fun _ => 0 := funext (colSum_nil b)
+    rw [this, val_map_zero]; simp [val]
+  | x :: xs, 0, h => by simp at h
+  | x :: xs, m + 1, h => by
+    have hl : xs.length + b.length ≤ m := by simp at h; omega
+    have hb : b.length ≤ m + 1 := by omega
+    rw [val_map_range_succ]
+    simp only [colSum_cons_zero, colSum_cons_succ]
+    rw [val_map_add, val_map_mul, val_colSum B b xs m hl]
+    have e := val_getD_range B b (m + 1) hb
+    rw [val_map_range_succ] at e
+    simp only [val]
+    rw [← e]
+    grind
+
+
+
+/-- a diagonal segment of index pairs covers the whole k-th column when everything outside it
+    is out of range -/
+theorem seg_eq_colSum (a b : List Nat) (s t cnt : Nat) (h1 : cnt ≤ t + 1)
+    (hstart : s = 0 ∨ b.length ≤ t + 1) (hend : a.length ≤ s + cnt ∨ cnt = t + 1) :
+    sumTo (fun j => a.getD (s + j) 0 * b.getD (t - j) 0) cnt = colSum a b (s + t) := by
+  unfold colSum
+  have e : s + t + 1 = s + (cnt + (t + 1 - cnt)) := by omega
+  rw [e, sumTo_add, sumTo_add]
+  have z1 : sumTo (fun i => a.getD i 0 * b.getD (s + t - i) 0) s = 0 := by
+    apply sumTo_zero; intro i hi
+    rcases hstart with h | h
+    · omega
+    · show a.getD i 0 * b.getD (s + t - i) 0 = 0
+      rw [getD_ge b _ (by omega)]; simp
+  have z3 : sumTo (fun i => a.getD (s + (cnt + i)) 0 * b.getD (s + t - (s + (cnt + i))) 0)
+      (t + 1 - cnt) = 0 := by
+    apply sumTo_zero; intro i hi
+    rcases hend with h | h
+    · show a.getD (s + (cnt + i)) 0 * _ = 0
+      rw [getD_ge a _ (by omega)]; simp
+    · omega
+  rw [z1, z3]
+  simp only [Nat.zero_add, Nat.add_zero]
+  apply sumTo_congr; intro j hj
+  show _ = a.getD (s + j) 0 * b.getD (s + t - (s + j)) 0
+  have : s + t - (s + j) = t - j := by omega
+  rw [this]
+
+/-- a sum that is symmetric about its middle is twice the first half plus the middle term -/
+theorem sumTo_sym : ∀ (L : Nat) (f : Nat → Nat), (∀ j, j < L → f j = f (L - 1 - j)) →
+    sumTo f L = 2 * sumTo f (L / 2) + (if L % 2 = 1 then f (L / 2) else 0)
+  | 0, f, _ => rfl
+  | 1, f, _ => by simp [sumTo]
+  | L + 2, f, h => by
+    have ih := sumTo_sym L (fun i => f (i + 1)) (by
+      intro j hj
+      have := h (j + 1) (by omega)
+      show f (j + 1) = f (L - 1 - j + 1)
+      rw [this]; congr 1; omega)
+    have e0 : f (L + 1) = f 0 := by
+      have := h 0 (by omega)
+      rw [this]; rfl
+    show sumTo f (L + 1) + f (L + 1) = _
+    rw [sumTo_succ_front f L, ih, e0]
+    have e1 : (L + 2) / 2 = L / 2 + 1 := by omega
+    have e2 : (L + 2) % 2 = L % 2 := by omega
+    rw [e1, e2, sumTo_succ_front f (L / 2)]
+    split <;> omega
+
+
+
+end LowMul
+
+/-! ### assembling the Comba drivers -/
+
+namespace LowMul
+
+theorem cols_seg (a b : List Nat) (s t cnt k : Nat) (h1 : cnt ≤ t + 1)
+    (hstart : s = 0 ∨ b.length ≤ t + 1) (hend : a.length ≤ s + cnt ∨ cnt = t + 1)
+    (hk : s + t = k) :
+    colVal a b ((List.range cnt).map fun j => (s + j, t - j)) = colSum a b k := by
+  rw [colVal_map_range, ← hk]
+  exact seg_eq_colSum a b s t cnt h1 hstart hend
+
+theorem cols_phase1 (a b : List Nat) (i : Nat) :
+    colVal a b ((List.range (i + 1)).map fun j => (j, i - j)) = colSum a b i := by
+  rw [colVal_map_range]; rfl
+
+theorem comba_generic (B : Nat) (hB : 1 < B) {γ : Type}
+    (proc : γ → Nat × Nat × Nat → Nat × Nat × Nat) (v : γ → Nat) (cols : List γ)
+    (hproc : ∀ c ∈ cols, ∀ r : Nat × Nat × Nat, r.1 = 0 → r.2.1 < B → r.2.2 < B →
+      regVal B (proc c r) = regVal B r + v c
+      ∧ (proc c r).1 < B ∧ (proc c r).2.1 < B ∧ (proc c r).2.2 < B)
+    (a b : List Nat) (hda : ∀ d ∈ a, d < B) (hdb : ∀ d ∈ b, d < B) (n : Nat)
+    (hcols : cols.map v = (List.range n).map (colSum a b)) (hn : a.length + b.length = n) :
+    val B (cols.foldl (colStep proc) ([], (0, 0, 0))).1.reverse = val B a * val B b
+    ∧ (cols.foldl (colStep proc) ([], (0, 0, 0))).1.reverse.length = n
+    ∧ (∀ d ∈ (cols.foldl (colStep proc) ([], (0, 0, 0))).1.reverse, d < B) := by
+  obtain ⟨q1, q2, q3, _⟩ := colFold_spec B proc v cols hproc ([], (0, 0, 0)) rfl
+    (show 0 < B by omega) (show 0 < B by omega) (by simp)
+  have hlen : cols.length = n := by
+    have := congrArg List.length hcols
+    simpa using this
+  rw [hcols, val_colSum B b a n (by omega)] at q1
+  simp only [List.length_nil, Nat.zero_add] at q2
+  have hz : regVal B (0, 0, 0) = 0 := by simp [regVal]
+  simp only [List.reverse_nil, val, List.length_nil, Nat.pow_zero, hz, Nat.zero_add,
+    Nat.one_mul] at q1
+  rw [q2, hlen] at q1
+  have hlt : val B a * val B b < B ^ n := by
+    rw [← hn, Nat.pow_add]
+    exact Nat.mul_lt_mul'' (val_lt B a hda) (val_lt B b hdb)
+  refine ⟨?_, by rw [List.length_reverse, q2, hlen], fun d hd => q3 d (List.mem_reverse.1 hd)⟩
+  generalize regVal B (List.foldl (colStep proc) ([], 0, 0, 0) cols).2 = R at q1
+  cases R with
+  | zero => simpa using q1
+  | succ R => rw [Nat.mul_succ] at q1; omega
+
+end LowMul
 
 /-- bn_muln_low (Comba, product scanning) = ℕ multiplication. `size < B` keeps every column sum inside
     the three-digit accumulator (true for every buildable precision, including the 8-bit digit build). -/
@@ -51,7 +582,41 @@ theorem mulnLow_spec (B : Nat) (hB : 1 < B) (a b : List Nat) (size : Nat)
     (hda : ∀ d ∈ a, d < B) (hdb : ∀ d ∈ b, d < B) :
     val B (mulnLow B a b size) = val B a * val B b
     ∧ (mulnLow B a b size).length = 2 * size ∧ (∀ d ∈ mulnLow B a b size, d < B) := by
-  sorry
+  rw [mulnLow_eq]
+  apply comba_generic B hB (mulProc B a b) (colVal a b) _ _ a b hda hdb (2 * size) _ (by omega)
+  · intro c hc
+    apply mulProc_spec B hB a b hda hdb c
+    simp only [List.mem_append, List.mem_map, List.mem_range] at hc
+    rcases hc with ⟨i, hi, rfl⟩ | ⟨i, hi, rfl⟩
+    · simp; omega
+    · simp; omega
+  · rw [Nat.two_mul, List.range_add, List.map_append, List.map_append, List.map_map, List.map_map,
+      List.map_map]
+    congr 1
+    · apply List.map_congr_left
+      intro i _
+      exact cols_phase1 a b i
+    · apply List.map_congr_left
+      intro i hi
+      have hi := List.mem_range.1 hi
+      exact cols_seg a b (i + 1) (size - 1) (size - (i + 1)) (size + i) (by omega)
+        (Or.inr (by omega)) (Or.inl (by omega)) (by omega)
+
+
+
+namespace LowMul
+
+theorem muldLow_eq (B : Nat) (a : List Nat) (sa : Nat) (b : List Nat) (sb : Nat) :
+    muldLow B a sa b sb =
+      ((((List.range sb).map fun i => (List.range (i + 1)).map fun j => (j, i - j)) ++
+        ((List.range (sa - sb)).map fun k =>
+          (List.range sb).map fun j => (k + 1 + j, sb - 1 - j)) ++
+        ((List.range sb).map fun k =>
+          (List.range (sa - ((sa - sb) + k + 1))).map fun j =>
+            ((sa - sb) + k + 1 + j, sb - 1 - j))).foldl
+        (colStep (mulProc B a b)) ([], (0, 0, 0))).1.reverse := rfl
+
+end LowMul
 
 /-- bn_muld_low with l = 0, h = sa + sb, sa ≥ sb (the way bn_mul_comba calls it) -/
 theorem muldLow_spec (B : Nat) (hB : 1 < B) (a b : List Nat) (sa sb : Nat)
@@ -59,13 +624,194 @@ theorem muldLow_spec (B : Nat) (hB : 1 < B) (a b : List Nat) (sa sb : Nat)
     (hda : ∀ d ∈ a, d < B) (hdb : ∀ d ∈ b, d < B) :
     val B (muldLow B a sa b sb) = val B a * val B b
     ∧ (muldLow B a sa b sb).length = sa + sb ∧ (∀ d ∈ muldLow B a sa b sb, d < B) := by
-  sorry
+  rw [muldLow_eq]
+  apply comba_generic B hB (mulProc B a b) (colVal a b) _ _ a b hda hdb (sa + sb) _ (by omega)
+  · intro c hc
+    apply mulProc_spec B hB a b hda hdb c
+    simp only [List.mem_append, List.mem_map, List.mem_range] at hc
+    rcases hc with (⟨i, hi, rfl⟩ | ⟨i, hi, rfl⟩) | ⟨i, hi, rfl⟩
+    · simp; omega
+    · simp; omega
+    · simp; omega
+  · have e : sa + sb = sb + (sa - sb) + sb := by omega
+    rw [e, List.range_add, List.range_add]
+    simp only [List.map_append, List.map_map]
+    congr 1
+    congr 1
+    · apply List.map_congr_left
+      intro i _
+      exact cols_phase1 a b i
+    · apply List.map_congr_left
+      intro k hk
+      have hk := List.mem_range.1 hk
+      exact cols_seg a b (k + 1) (sb - 1) sb (sb + k) (by omega)
+        (Or.inr (by omega)) (Or.inr (by omega)) (by omega)
+    · apply List.map_congr_left
+      intro k hk
+      have hk := List.mem_range.1 hk
+      exact cols_seg a b ((sa - sb) + k + 1) (sb - 1) (sa - ((sa - sb) + k + 1))
+        (sb + (sa - sb) + k) (by omega) (Or.inr (by omega)) (Or.inl (by omega)) (by omega)
+
+
+
+/-! ### squaring -/
+
+namespace LowMul
+
+def sqrProc (B : Nat) (a : List Nat) (col : List (Nat × Nat) × Option Nat) (r : Nat × Nat × Nat) :
+    Nat × Nat × Nat :=
+  match col.2 with
+  | some m =>
+    combaStepMul B
+      (col.1.foldl (fun acc ij => combaStepSqr B acc (a.getD ij.1 0) (a.getD ij.2 0)) r)
+      (a.getD m 0) (a.getD m 0)
+  | none => col.1.foldl (fun acc ij => combaStepSqr B acc (a.getD ij.1 0) (a.getD ij.2 0)) r
+
+def sqrColVal (a : List Nat) (col : List (Nat × Nat) × Option Nat) : Nat :=
+  2 * colVal a a col.1 + (match col.2 with | some m => a.getD m 0 * a.getD m 0 | none => 0)
+
+theorem sqrnLow_eq (B : Nat) (a : List Nat) (size : Nat) :
+    sqrnLow B a size =
+      ((((List.range size).map fun i =>
+          (((List.range ((i + 1) / 2)).map fun j => (j, i - j)),
+            if i % 2 = 0 then some ((i + 1) / 2) else none)) ++
+        ((List.range size).map fun i =>
+          (((List.range ((size - 1 - i) / 2)).map fun j => (i + 1 + j, size - 1 - j)),
+            if (size - i) % 2 = 0 then some (i + 1 + (size - 1 - i) / 2) else none))).foldl
+        (colStep (sqrProc B a)) ([], (0, 0, 0))).1.reverse := by
+  rfl
+
+theorem sqrFold (B : Nat) (hB : 1 < B) (a : List Nat) (hda : ∀ d ∈ a, d < B) (E : Nat) :
+    ∀ (pairs : List (Nat × Nat)) (acc : Nat × Nat × Nat),
+      acc.1 < B → acc.2.1 < B → acc.2.2 < B →
+      regVal B acc + pairs.length * (2 * (B * B)) + E ≤ B * B * B →
+      regVal B (pairs.foldl (fun acc ij => combaStepSqr B acc (a.getD ij.1 0) (a.getD ij.2 0)) acc)
+        = regVal B acc + 2 * colVal a a pairs
+      ∧ regVal B (pairs.foldl (fun acc ij => combaStepSqr B acc (a.getD ij.1 0) (a.getD ij.2 0)) acc)
+        + E ≤ B * B * B
+      ∧ (pairs.foldl (fun acc ij => combaStepSqr B acc (a.getD ij.1 0) (a.getD ij.2 0)) acc).1 < B
+      ∧ (pairs.foldl (fun acc ij => combaStepSqr B acc (a.getD ij.1 0) (a.getD ij.2 0)) acc).2.1 < B
+      ∧ (pairs.foldl (fun acc ij => combaStepSqr B acc (a.getD ij.1 0) (a.getD ij.2 0)) acc).2.2 < B := by
+  intro pairs
+  induction pairs with
+  | nil =>
+    intro acc h1 h2 h3 hfit
+    simp only [List.length_nil, Nat.zero_mul, Nat.add_zero] at hfit
+    exact ⟨rfl, hfit, h1, h2, h3⟩
+  | cons ij ps ih =>
+    intro acc h1 h2 h3 hfit
+    have hx := getD_lt B (by omega) a hda ij.1
+    have hy := getD_lt B (by omega) a hda ij.2
+    have hxy : a.getD ij.1 0 * a.getD ij.2 0 < B * B := Nat.mul_lt_mul'' hx hy
+    simp only [List.length_cons, Nat.add_mul, Nat.one_mul] at hfit
+    obtain ⟨e, g1, g2, g3⟩ := combaStepSqr_spec B hB acc _ _ h1 h2 h3 hx hy (by omega)
+    obtain ⟨e', f', g1', g2', g3'⟩ :=
+      ih (combaStepSqr B acc (a.getD ij.1 0) (a.getD ij.2 0)) g1 g2 g3 (by omega)
+    simp only [List.foldl_cons]
+    refine ⟨?_, f', g1', g2', g3'⟩
+    rw [e', e, colVal]; omega
+
+theorem sqrProc_spec (B : Nat) (hB : 1 < B) (a : List Nat) (hda : ∀ d ∈ a, d < B)
+    (col : List (Nat × Nat) × Option Nat)
+    (hlen : 2 * col.1.length + (match col.2 with | some _ => 1 | none => 0) < B)
+    (r : Nat × Nat × Nat) (h0 : r.1 = 0) (h1 : r.2.1 < B) (h2 : r.2.2 < B) :
+    regVal B (sqrProc B a col r) = regVal B r + sqrColVal a col
+    ∧ (sqrProc B a col r).1 < B ∧ (sqrProc B a col r).2.1 < B
+    ∧ (sqrProc B a col r).2.2 < B := by
+  obtain ⟨pairs, mid⟩ := col
+  have hs := reg_small B r _ h0 h1 h2 hlen
+  cases mid with
+  | none =>
+    simp only [Nat.add_zero] at hs
+    have hs' : regVal B r + pairs.length * (2 * (B * B)) + 0 ≤ B * B * B := by
+      have : 2 * pairs.length * (B * B) = pairs.length * (2 * (B * B)) := by grind
+      omega
+    obtain ⟨e, _, g1, g2, g3⟩ := sqrFold B hB a hda 0 pairs r (by omega) h1 h2 hs'
+    simp only [sqrProc, sqrColVal, Nat.add_zero]
+    exact ⟨e, g1, g2, g3⟩
+  | some m =>
+    have hs' : regVal B r + pairs.length * (2 * (B * B)) + B * B ≤ B * B * B := by
+      have : (2 * pairs.length + 1) * (B * B) = pairs.length * (2 * (B * B)) + B * B := by grind
+      simp only at hs
+      omega
+    obtain ⟨e, f, g1, g2, g3⟩ := sqrFold B hB a hda (B * B) pairs r (by omega) h1 h2 hs'
+    have hx := getD_lt B (by omega) a hda m
+    have hxx : a.getD m 0 * a.getD m 0 < B * B := Nat.mul_lt_mul'' hx hx
+    obtain ⟨e', k1, k2, k3⟩ := combaStepMul_spec B hB _ _ _ g1 g2 g3 hx hx (by omega)
+    simp only [sqrProc, sqrColVal]
+    refine ⟨?_, k1, k2, k3⟩
+    rw [e', e]; omega
+
+
+
+/-- a squaring column (doubled first half + optional middle square) is the full symmetric segment -/
+theorem sqr_col (a : List Nat) (s t L : Nat) (mid : Option Nat)
+    (hL : L = 0 ∨ s + L = t + 1)
+    (hmid : mid = if L % 2 = 1 then some (s + L / 2) else none) :
+    sqrColVal a ((List.range (L / 2)).map (fun j => (s + j, t - j)), mid)
+      = sumTo (fun j => a.getD (s + j) 0 * a.getD (t - j) 0) L := by
+  have hsym : ∀ j, j < L → (fun j => a.getD (s + j) 0 * a.getD (t - j) 0) j
+      = (fun j => a.getD (s + j) 0 * a.getD (t - j) 0) (L - 1 - j) := by
+    intro j hj
+    show a.getD (s + j) 0 * a.getD (t - j) 0
+      = a.getD (s + (L - 1 - j)) 0 * a.getD (t - (L - 1 - j)) 0
+    have e1 : s + (L - 1 - j) = t - j := by omega
+    have e2 : t - (L - 1 - j) = s + j := by omega
+    rw [e1, e2, Nat.mul_comm]
+  rw [sumTo_sym L _ hsym]
+  simp only [sqrColVal]
+  rw [colVal_map_range, hmid]
+  by_cases h : L % 2 = 1
+  · rw [if_pos h, if_pos h]
+    have : t - L / 2 = s + L / 2 := by omega
+    simp only [this]
+  · rw [if_neg h, if_neg h]
+
+end LowMul
 
 /-- bn_sqrn_low (Comba squaring with doubled cross terms) = ℕ squaring -/
 theorem sqrnLow_spec (B : Nat) (hB : 1 < B) (a : List Nat) (size : Nat)
     (ha : a.length = size) (hs : size < B) (hda : ∀ d ∈ a, d < B) :
     val B (sqrnLow B a size) = val B a * val B a
     ∧ (sqrnLow B a size).length = 2 * size ∧ (∀ d ∈ sqrnLow B a size, d < B) := by
-  sorry
+  rw [sqrnLow_eq]
+  apply comba_generic B hB (sqrProc B a) (sqrColVal a) _ _ a a hda hda (2 * size) _ (by omega)
+  · intro c hc
+    apply sqrProc_spec B hB a hda c
+    simp only [List.mem_append, List.mem_map, List.mem_range] at hc
+    rcases hc with ⟨i, hi, rfl⟩ | ⟨i, hi, rfl⟩
+    · by_cases h : i % 2 = 0
+      · simp [h]; omega
+      · simp [h]; omega
+    · by_cases h : (size - i) % 2 = 0
+      · simp [h]; omega
+      · simp [h]; omega
+  · rw [Nat.two_mul, List.range_add, List.map_append, List.map_append, List.map_map, List.map_map,
+      List.map_map]
+    congr 1
+    · apply List.map_congr_left
+      intro i _
+      have e : (fun j => (j, i - j)) = (fun j => (0 + j, i - j)) := by funext j; simp
+      show sqrColVal a ((List.range ((i + 1) / 2)).map (fun j => (j, i - j)), _) = colSum a a i
+      rw [e, sqr_col a 0 i (i + 1) _ (Or.inr (by omega))
+        (by by_cases h : i % 2 = 0
+            · rw [if_pos h, if_pos (by omega), Nat.zero_add]
+            · rw [if_neg h, if_neg (by omega)])]
+      have := seg_eq_colSum a a 0 i (i + 1) (Nat.le_refl _) (Or.inl rfl) (Or.inr rfl)
+      rwa [Nat.zero_add] at this
+    · apply List.map_congr_left
+      intro i hi
+      have hi := List.mem_range.1 hi
+      show sqrColVal a ((List.range ((size - 1 - i) / 2)).map (fun j => (i + 1 + j, size - 1 - j)), _)
+        = colSum a a (size + i)
+      rw [sqr_col a (i + 1) (size - 1) (size - 1 - i) _ (Or.inr (by omega))
+        (by by_cases h : (size - i) % 2 = 0
+            · rw [if_pos h, if_pos (by omega)]
+            · rw [if_neg h, if_neg (by omega)])]
+      have := seg_eq_colSum a a (i + 1) (size - 1) (size - 1 - i) (by omega)
+        (Or.inr (by omega)) (Or.inl (by omega))
+      have e : i + 1 + (size - 1) = size + i := by omega
+      rwa [e] at this
+
 
 end Relic.Model
